@@ -378,6 +378,25 @@ func (x *Dec2) Shutdown() error { rt.OnDecoy(&x.Inst, "Shutdown()"); return nil 
 	}
 	b.WriteString("\t\"IA\": godi.As[IA](),\n\t\"IB\": godi.As[IB](),\n")
 	b.WriteString("\t\"Scope\": godi.As[godi.Scope](),\n\t\"Provider\": godi.As[godi.Provider](),\n\t\"Context\": godi.As[context.Context](),\n")
+	b.WriteString("}\n\n")
+	// generic resolve wrappers (godi.Resolve[T] needs a static T)
+	b.WriteString("// ResolveFn / ResolveKeyedFn / ResolveGroupFn call the generic godi.Resolve* helpers.\nvar ResolveFn = map[string]func(godi.Provider) (any, error){\n")
+	gnames := append([]string{}, allTypes...)
+	for _, t := range allTypes {
+		gnames = append(gnames, "I"+t)
+	}
+	gnames = append(gnames, "IA", "IB", "Dec0", "Dec1", "Dec2", "Scope", "Provider", "Context")
+	for _, t := range gnames {
+		fmt.Fprintf(&b, "\t%q: func(p godi.Provider) (any, error) { v, err := godi.Resolve[%s](p); if err != nil { return nil, err }; return v, nil },\n", t, goType(t))
+	}
+	b.WriteString("}\n\nvar ResolveKeyedFn = map[string]func(godi.Provider, any) (any, error){\n")
+	for _, t := range gnames {
+		fmt.Fprintf(&b, "\t%q: func(p godi.Provider, k any) (any, error) { v, err := godi.ResolveKeyed[%s](p, k); if err != nil { return nil, err }; return v, nil },\n", t, goType(t))
+	}
+	b.WriteString("}\n\nvar ResolveGroupFn = map[string]func(godi.Provider, string) ([]any, error){\n")
+	for _, t := range gnames {
+		fmt.Fprintf(&b, "\t%q: func(p godi.Provider, g string) ([]any, error) { vs, err := godi.ResolveGroup[%s](p, g); if err != nil { return nil, err }; out := make([]any, len(vs)); for i, v := range vs { out[i] = v }; return out, nil },\n", t, goType(t))
+	}
 	b.WriteString("}\n\n// TypeNames lists the concrete service type names.\nvar TypeNames = []string{")
 	for i, t := range allTypes {
 		if i > 0 {
